@@ -47,6 +47,48 @@ def enums(p):
     return out
 
 
+def table_dispatch_loops(p, f, enums_, event):
+    """For loops of the shape `for (k, ...) in TABLE: if subject == k: <event>; return` where TABLE is a module-level
+    literal whose first components (or dictionary keys) are constants covering one of the declared enumerations
+    (apart from members an earlier test of the same subject has dealt with)."""
+    out = []
+    m = f.mod
+    for s in p.own_nodes(f):
+        if not (isinstance(s, ast.For) and not s.orelse and len(s.body) == 1 and isinstance(s.body[0], ast.If) and not s.body[0].orelse):
+            continue
+        it = s.iter
+        if isinstance(it, ast.Call) and isinstance(it.func, ast.Attribute) and it.func.attr == 'items':
+            it = it.func.value
+        if not isinstance(it, ast.Name) or it.id not in m.consts:
+            continue
+        tab = m.consts[it.id]
+        keys = []
+        if isinstance(tab, ast.Dict):
+            keys = [k.value for k in tab.keys if isinstance(k, ast.Constant)]
+        elif isinstance(tab, (ast.Tuple, ast.List)):
+            for e in tab.elts:
+                if isinstance(e, (ast.Tuple, ast.List)) and e.elts and isinstance(e.elts[0], ast.Constant):
+                    keys.append(e.elts[0].value)
+        kv = s.target.elts[0] if isinstance(s.target, (ast.Tuple, ast.List)) else s.target
+        test = s.body[0].test
+        if not (isinstance(kv, ast.Name) and isinstance(test, ast.Compare) and len(test.ops) == 1 and isinstance(test.ops[0], ast.Eq)
+                and kv.id in (norm(test.left), norm(test.comparators[0]))):
+            continue
+        subj = norm(test.comparators[0]) if norm(test.left) == kv.id else norm(test.left)
+        body = s.body[0].body
+        if not (any(event(b) for b in body) and isinstance(body[-1], (ast.Return, ast.Break))):
+            continue
+        # members of the enumeration already handled by an explicit test of the same subject earlier in the function
+        handled = set()
+        for x in p.own_nodes(f):
+            if isinstance(x, ast.Compare) and len(x.ops) == 1 and isinstance(x.ops[0], ast.Eq) and x.lineno < s.lineno and \
+                    norm(x.left) == subj and isinstance(x.comparators[0], ast.Constant):
+                handled.add(x.comparators[0].value)
+        if any(set(en) <= set(keys) | handled for en in enums_):
+            out.append(s)
+    return out
+
+
 def is_outdf_store(s):
     return tables.pick_store('out_df')(s) is not None
 
@@ -68,7 +110,10 @@ def check(run):
             continue
         if det.cls.name != 'PandasConstraintDetector':
             raise AnalysisError('detector for %s resolves to %s' % (kind, det.qn))
-        bad = must_pass(det, is_outdf_store, enums=en)
+        disp = table_dispatch_loops(p, det, en, is_outdf_store)
+        bad = must_pass(det, lambda st, disp=disp: is_outdf_store(st) or st in disp, enums=en)
+        if disp:
+            run.note('C06-MUSTFLAG', '%s dispatches through a table whose keys cover a declared enumeration; the loop is taken as exhaustive' % det.short, fn=det)
         if not bad:
             run.ob('C06-MUSTFLAG', '%s::%s' % (det.rel, det.short), True, 'every path stores the %s flag' % kind, fn=det)
         for k, node, atoms in bad:
@@ -81,7 +126,7 @@ def check(run):
         run.ob('C06-MUSTFLAG', '%s::%s::column-kind' % (det.rel, det.short), okname,
                'flag column is named for kind %r: %s' % (kind, [norm(n) for n in names]), fn=det, nontrivial=False)
         # NULLFLAG
-        for lab, marks, comp, s in tables.table(det.node, tables.pick_store('out_df')):
+        for lab, marks, comp, s in tables.table(det.node, tables.pick_store('out_df'), consts=det.mod.consts):
             v = s.value
             ok = False
             why = norm(v)
@@ -119,7 +164,7 @@ def check(run):
 
 def agree(run, p, kind, ver, det):
     vt = tables.table(ver.node, tables.pick_result('result'))
-    dt = tables.table(det.node, tables.pick_store('out_df'))
+    dt = tables.table(det.node, tables.pick_store('out_df'), consts=det.mod.consts)
     dmap = {}
     for lab, marks, comp, s in dt:
         dmap.setdefault(lab, []).append((marks, comp, s))
